@@ -85,5 +85,56 @@ def Good (m : Iid) : Prop :=
   (∀ o i, m.iids o = some i ↔ m.objs i = some o) ∧
   (∀ i o, m.objs i = some o → 1 ≤ i ∧ i ≤ m.counter)
 
+/-! ### application subclasses overriding `get_iid_for_obj` (the documented extension point) -/
+
+/-- `assign(obj)` on a manager subclass whose `get_iid_for_obj` answers the explicit iid `i` for
+    this object without touching the counter: ignored when `obj` is assigned already, else
+    `self.iids[obj] = i; self.objs[i] = obj` (whatever `objs[i]` held is overwritten). -/
+def assignAt (m : Iid) (o i : Nat) : Iid :=
+  match m.iids o with
+  | some _ => m
+  | none => { m with iids := upd m.iids o (some i), objs := upd m.objs i (some o) }
+
+/-- the public operations of a manager whose subclass mixes explicit and automatic iids -/
+inductive OpX where
+  /-- `assign(obj)`, the override defers to the base class (automatic iid) -/
+  | auto (o : Nat)
+  /-- `assign(obj)`, the override answers the explicit iid `i` -/
+  | explicit (o i : Nat)
+  | removeObj (o : Nat)
+  | removeIid (i : Nat)
+  deriving Repr, DecidableEq
+
+def stepX (m : Iid) : OpX → Option Iid
+  | .auto o => some (m.assign o)
+  | .explicit o i => some (m.assignAt o i)
+  | .removeObj o => (m.removeObj o).map (·.1)
+  | .removeIid i => (m.removeIid i).map (·.1)
+
+def runX (m : Iid) : List OpX → Option Iid
+  | [] => some m
+  | op :: rest => (m.stepX op).bind (fun m' => runX m' rest)
+
+/-- a manager whose application starts the automatic counter at `start` -/
+def startAt (start : Nat) : Iid := { empty with counter := start }
+
+/-- The application's policy, relative to a bound `B` no automatic iid of the history reaches:
+    an explicit iid is handed out only if nobody holds it and it lies at or below the current
+    counter or beyond `B`; automatic assignment happens only while the counter is below `B`. -/
+def Allowed (B : Nat) (m : Iid) : OpX → Prop
+  | .auto _ => m.counter < B
+  | .explicit _ i => m.objs i = none ∧ (i ≤ m.counter ∨ B < i)
+  | _ => True
+
+def AllowedRun (B : Nat) : Iid → List OpX → Prop
+  | _, [] => True
+  | m, op :: rest => Allowed B m op ∧ ∀ m', m.stepX op = some m' → AllowedRun B m' rest
+
+/-- the invariant with explicit iids: the maps are mutually inverse, every iid in use lies at or
+    below the counter or beyond `B`, and the counter has not passed `B` -/
+def GoodX (B : Nat) (m : Iid) : Prop :=
+  (∀ o i, m.iids o = some i ↔ m.objs i = some o) ∧
+  (∀ i o, m.objs i = some o → i ≤ m.counter ∨ B < i) ∧ m.counter ≤ B
+
 end Iid
 end Hap
